@@ -44,6 +44,43 @@ func runC01(c *Ctx) {
 	c.rule("R5", "inside the lock implementation only Unlock removes lockPath() and only ReleaseIfStale calls Unlock: acquire paths never release", 2)
 	c.rule("R4", "lockPath() depends only on the lock's directory, prefix and id; it is the path created by TryLock and the path removed by Unlock", 3)
 
+	c.rule("R9", "a heartbeat whose context has ended touches nothing any more: every write of the heartbeat goroutine (content, times) lies where the context gate of that iteration answered nil — the lock directory may already belong to the next holder, who uses the same file name", 2)
+	if hb := c.fnOpt(fsPkgRel, "heartBeat"); hb != nil {
+		c.FuncsSeen[fname(hb)] = true
+		var gates []ssa.Value
+		allInstrs(hb, func(in ssa.Instruction) {
+			if cl, ok := in.(*ssa.Call); ok && strings.HasSuffix(calleeFull(&cl.Call), "parallelisation.DetermineContextError") {
+				gates = append(gates, cl)
+			}
+		})
+		n := 0
+		allInstrs(hb, func(in ssa.Instruction) {
+			cl, ok := in.(*ssa.Call)
+			if !ok || !cl.Call.IsInvoke() {
+				return
+			}
+			switch cl.Call.Method.Name() {
+			case "WriteFile", "WriteFileWithContext", "WriteToFile", "Chtimes", "Touch", "CreateFile", "Rm", "Remove", "Move", "Chmod":
+			default:
+				return
+			}
+			n++
+			live := false
+			for _, g := range gates {
+				if onNilSide(g, cl) {
+					live = true
+				}
+			}
+			c.check(live, "R9", fname(hb)+"/writes-only-while-alive:"+cl.Call.Method.Name(), c.ipos(cl), "the write lies where the context gate answered nil",
+				"the heartbeat goroutine calls "+cl.Call.Method.Name()+" where its context has ended (or was never consulted): the goroutine of a holder that released — its Unlock cancelled the context and removed the directory — may run this after the next holder has created the same directory and the same heartbeat file, and rewrites the content or the times of a live holder's heartbeat (back-dated: the live lock is reported stale and taken over)")
+		})
+		if n == 0 {
+			c.violate("R9", fname(hb)+"/writes", c.pos(hb.Pos()), "the heartbeat goroutine writes nothing")
+		}
+	} else {
+		c.info("R9", "filesystem.heartBeat/absent", "-", "no heartBeat function (the heartbeat is written elsewhere)")
+	}
+
 	try := c.fn(fsPkgRel, "(*RemoteLockFile).TryLock")
 	lock := c.fn(fsPkgRel, "(*RemoteLockFile).Lock")
 	unlock := c.fn(fsPkgRel, "(*RemoteLockFile).Unlock")
